@@ -124,6 +124,11 @@ def c14(tier):
     return run_property('C14', tier, specs, 'model_checking', 'ping/pong', ENV_ASSUMPTIONS, RECV_FUNCS)
 
 
+# endings of an earlier connection (another WebSocket object in the same process): clean text, text cut inside a character,
+# invalid UTF-8 (connection failed), a fragmented text left unfinished at EOF, a binary message
+EARLIER = ['810161', '8102e282', '81018f', '0101e2', '8201ff']
+
+
 def c05(tier):
     from checks import utf8
     tags = ['C05']
@@ -131,13 +136,15 @@ def c05(tier):
         specs = [recv_spec('recv-text-N6-bytewise', tags, N=6, first_opcodes=[1], no_rsv=True, cuts='bytewise'),
                  recv_spec('frag-text-L3', tags + ['C01'], family=dict(opcode=1, L=3, max_frags=3), cuts='bytewise'),
                  recv_spec('frag-text-L2-ping1', tags + ['C01', 'C04', 'C14'], family=dict(opcode=1, L=2, max_frags=3, ctrl_len=1), cuts='bytewise'),
-                 recv_spec('recv-close-N6', tags + ['C01', 'C04'], N=6, first_opcodes=[8], no_rsv=True)]
+                 recv_spec('recv-close-N6', tags + ['C01', 'C04'], N=6, first_opcodes=[8], no_rsv=True),
+                 recv_spec('text-after-earlier-connection', tags + ['C01'], family=dict(opcode=1, L=2, max_frags=2), cuts='bytewise', earlier=EARLIER)]
     else:
         specs = [recv_spec('recv-text-N8-bytewise', tags, N=8, first_opcodes=[1], no_rsv=True, cuts='bytewise'),
                  recv_spec('frag-text-L4', tags + ['C01'], family=dict(opcode=1, L=4, max_frags=4), cuts='bytewise'),
                  recv_spec('frag-text-L3-ping2', tags + ['C01', 'C04', 'C14'], family=dict(opcode=1, L=3, max_frags=3, ctrl_len=2), cuts='bytewise'),
                  recv_spec('frag-text-L3-pong1', tags + ['C01', 'C04'], family=dict(opcode=1, L=3, max_frags=3, ctrl_len=1, ctrl=10)),
                  recv_spec('frag-text-L3-tail2', tags + ['C01'], family=dict(opcode=1, L=3, max_frags=3, tail_sym=2), cuts='bytewise'),
+                 recv_spec('text-after-earlier-connection', tags + ['C01'], family=dict(opcode=1, L=3, max_frags=3), cuts='bytewise', earlier=EARLIER),
                  recv_spec('recv-text-N9-nonfin-bytewise', tags, N=9, first_opcodes=[1], first_nonfin=True, no_rsv=True, cuts='bytewise'),
                  recv_spec('recv-text-N6-allcuts', tags, N=6, first_opcodes=[1], no_rsv=True, cuts='sym'),
                  recv_spec('recv-close-N8', tags + ['C01', 'C04'], N=8, first_opcodes=[8], no_rsv=True)]
@@ -473,6 +480,10 @@ def c19(tier):
           configs=[0, 3, 4], tails=['ok', 'unterminated-eof'],
           fault=dict(ops=['getaddrinfo', 'socket', 'connect', 'sendall', 'recv', 'wrap_socket'], kinds=['oserror', 'exception'], max=1)),
     ]
+    specs.append(sched_spec('proxy-negotiation-vs-sender', ['C19'], [['loop'], ['early_send_text']], 1,
+                            'thread 1 runs the REAL connect() through a proxy (CONNECT, answer 200, upgrade, one Ping) while thread 2 calls send_text at ANY '
+                            'statement boundary of the connection set-up (deterministic scheduler, schedule = solver variables): until the proxy answer has been '
+                            'read, only the CONNECT request may reach the proxy socket', proxy=True, xval_stride=7))
     return run_property('C19', tier, specs, 'model_checking', 'nothing is sent to the target before the tunnel is up', ENV_ASSUMPTIONS + [
         'urlparse is library code: proxy URL shapes are a concrete grid', 'both the proxy TLS layer and the target TLS layer are stubs'],
         ['lomond.session.WebsocketSession._connect/_connect_proxy/_connect_sock/_wrap_socket/run', 'lomond.proxy.build_request/ProxyParser.parse',
@@ -513,6 +524,9 @@ def c16(tier):
           K=8 if q else 10, outcomes=['refused', 'ready-drop'], sym_exit=False),
         S('app-close', 'the application calls close() at a solver-chosen Connecting/Connected/Ready event of any attempt: persist() must still yield one BackOff and reconnect',
           K=3, outcomes=['refused', 'ready-drop', 'ready-close'], app_close=True, sym_waits=False, sym_exit=False),
+        S('long-outage', '1100 consecutive failed attempts in ONE path (host never resolves; default min_wait=5/max_wait=30, random() symbolic per attempt): the exponent of '
+          'the doubling window crosses every machine-number boundary (2^63, 2^64, 2^1024): persist() must go on yielding one bounded BackOff per attempt',
+          K=1100, outcomes=['resolve-fail'], sym_waits=False, sym_exit=False, xval_stride=1),
         S('defaults', 'default min_wait=5/max_wait=30, 5 attempts', K=5, outcomes=['refused', 'rejected', 'ready-close'], sym_waits=False, sym_exit=False),
     ]
     return run_property('C16', tier, specs, 'model_checking', 'persist() back-off', ENV_ASSUMPTIONS + [
@@ -572,9 +586,14 @@ def c18(tier):
               recv_spec('burst-tls-records', ['C18'], reads='tls16k', **burst)]
     specs[-2].what = ('the upgrade reply and a burst of 16-70 KB behind it arrive in ONE read (plain transport, as much as the 64 KiB buffer takes): ' + specs[-2].what)
     specs[-1].what = ('16 KiB TLS-like records, the upgrade reply split over two records (split position = solver variable), full records behind it: ' + specs[-1].what)
+    stalled = sched_spec('loop-vs-stalled-sender', ['C18'], [['loop'], ['send_stalled']], 1,
+                         'thread 1 runs the REAL event loop (a Ping is available to read); thread 2 is inside send_text with its sendall held up by flow '
+                         'control until the loop has read (the peer does not read while it is pushing): the loop must go on receiving - deliver the Ping, write '
+                         'the Pong after the send completes - and must not wait for the sender (no deadlock under any schedule)', xval_stride=7, hs_separate=True, expect_classes=['stalled'])
     for s_ in specs[1:]:
         s_.what = ('real parser pipeline (no stubbed feed): ' + s_.what + '; obligation: at every read boundary, every message whose last byte has '
                    'arrived has been delivered, and its Pong written, before the loop waits on the selector again')
+    specs.append(stalled)
     return run_property('C18', tier, specs, 'model_checking', 'available data is drained without waiting', ENV_ASSUMPTIONS + [
         'REDUCED SCOPE: only the loop\'s own decision logic is decided (inductive step on an abstract transport); kernel selector semantics '
         '(select.poll/kqueue/select), real ssl.SSLSocket buffering and loopback TCP/TLS runs are executions, not solver queries, and are outside',
@@ -632,9 +651,10 @@ SCHED_ASSUME = ['real threads under a deterministic baton scheduler; preemption 
                 'the schedule is a vector of solver variables explored path by path; z3 decides the data dimension and the wire/decoder obligations per schedule']
 
 
-def sched_spec(name, tags, threads, pb, what, **P):
+def sched_spec(name, tags, threads, pb, what, expect_classes=(), **P):
     P = dict(P, threads=threads, pb=pb, tags=list(tags), xval_stride=P.get('xval_stride', 17))
-    return Spec(name, 'checks.sched', 'run_sched', P, what='threads %s, <=%d preemptions; %s' % (threads, pb, what), chunk=40)
+    return Spec(name, 'checks.sched', 'run_sched', P, what='threads %s, <=%d preemptions; %s' % (threads, pb, what), chunk=40,
+                expect_classes=expect_classes)
 
 
 def c11(tier):
